@@ -137,6 +137,68 @@ static uint64_t fullHash(const Manifold& m) {
   return f.h;
 }
 
+static std::string hex16(uint64_t h);
+// Every getter separately, called in an order that is a function of (history id, step, slot): each getter comes first
+// in some observations, so a getter that answers differently before/after the object is evaluated is seen.
+// "tbox" = tight box of the vertices of the exported mesh, hashed like "bbox": the two must be equal.
+static std::string getterLine(const Manifold& m, uint64_t seed) {
+  static const char* names[] = {"bbox", "nvert", "ntri", "nprop", "vol", "tol", "eps", "status", "oid", "genus", "empty", "export", "nedge", "area"};
+  const int N = 14;
+  int order[N];
+  for (int i = 0; i < N; ++i) order[i] = i;
+  uint64_t x = seed * 6364136223846793005ULL + 1442695040888963407ULL;
+  for (int i = N - 1; i > 0; --i) {
+    x = x * 6364136223846793005ULL + 1442695040888963407ULL;
+    int j = (int)((x >> 33) % (uint64_t)(i + 1));
+    std::swap(order[i], order[j]);
+  }
+  if ((x >> 20) % 3 == 0) {          // the bounding box first, one time in three
+    for (int i = 0; i < N; ++i) if (order[i] == 0) { std::swap(order[0], order[i]); break; }
+  }
+  std::string res;
+  std::string tbox;
+  Box bb, tight;
+  bool haveTight = false;
+  for (int k = 0; k < N; ++k) {
+    Fnv f;
+    switch (order[k]) {
+      case 0: { Box b = m.BoundingBox(); f.v3(b.min); f.v3(b.max); bb = b; break; }
+      case 1: f.u(m.NumVert()); break;
+      case 2: f.u(m.NumTri()); break;
+      case 3: f.u(m.NumProp()); f.u(m.NumPropVert()); break;
+      case 4: f.d(m.Volume()); break;
+      case 5: f.d(m.GetTolerance()); break;
+      case 6: f.d(m.GetEpsilon()); break;
+      case 7: f.u((uint64_t)m.Status()); break;
+      case 8: f.u((uint64_t)(int64_t)m.OriginalID()); break;
+      case 9: f.u((uint64_t)(int64_t)m.Genus()); break;
+      case 10: f.u(m.IsEmpty() ? 1 : 0); break;
+      case 11: {
+        MeshGL64 g = m.GetMeshGL64();
+        hashMesh(f, g);
+        Box t;
+        const size_t nv = g.numProp ? g.vertProperties.size() / g.numProp : 0;
+        for (size_t v = 0; v < nv; ++v)
+          t.Union(vec3(g.vertProperties[v * g.numProp], g.vertProperties[v * g.numProp + 1], g.vertProperties[v * g.numProp + 2]));
+        Fnv ft; ft.v3(t.min); ft.v3(t.max);
+        // an empty export has no tight box (BoundingBox() of a mesh that Simplify collapsed to nothing keeps the old box)
+        tight = t; haveTight = nv > 0;
+        tbox = hex16(ft.h);
+        break;
+      }
+      case 12: f.u(m.NumEdge()); break;
+      case 13: f.d(m.SurfaceArea()); break;
+    }
+    res += (k ? "," : "") + std::string(names[order[k]]) + ":" + hex16(f.h);
+  }
+  // numeric comparison (-0.0 == 0.0): "ok", "-" (empty export: no tight box) or the hash of the tight box
+  if (!haveTight) tbox = "-";
+  else if (bb.min.x == tight.min.x && bb.min.y == tight.min.y && bb.min.z == tight.min.z && bb.max.x == tight.max.x &&
+           bb.max.y == tight.max.y && bb.max.z == tight.max.z) tbox = "ok";
+  res += ",tbox:" + tbox;
+  return res;
+}
+
 static uint64_t csTolHash(const CrossSection& c) {  // does not force
   Fnv f;
   f.d(c.GetTolerance());
@@ -824,12 +886,16 @@ static void refcountLine(Hist& h) {
 static void observe(Hist& h, std::vector<int> slots, const std::string& stepName) {
   std::sort(slots.begin(), slots.end());
   slots.erase(std::unique(slots.begin(), slots.end()), slots.end());
-  std::string P, T, O, G;
+  std::string P, T, O, G, Q;
   auto bits = [](double v) { uint64_t u; std::memcpy(&u, &v, 8); return hex16(u); };
   for (int s : slots) {
     Slot& x = h.pool[s];
     try {
       if (x.kind == MAN) {
+        {
+          Fnv sd; sd.bytes(h.id.data(), h.id.size()); sd.bytes(stepName.data(), stepName.size()); sd.u((uint64_t)s);
+          Q += " " + std::to_string(s) + "=" + getterLine(*x.m, sd.h);
+        }
         P += " " + std::to_string(s) + "=" + hex16(peekHash(*x.m));
         O += " " + std::to_string(s) + "=" + hex16(fullHash(*x.m));
         x.est = (long)x.m->NumTri();
@@ -850,6 +916,7 @@ static void observe(Hist& h, std::vector<int> slots, const std::string& stepName
       out("X " + h.id + " " + stepName + " observe:" + e.what());
     }
   }
+  if (!Q.empty()) out("Q " + h.id + " " + stepName + Q);
   if (!P.empty()) out("P " + h.id + " " + stepName + P);
   if (!T.empty()) out("T " + h.id + " " + stepName + T);
   out("O " + h.id + " " + stepName + O);
